@@ -445,10 +445,6 @@ fn emit_fn(out: &mut Value, req: &Value, sig: &Signature, block: &Block, impl_hd
     if let Some(h) = impl_hdr {
         out["impl_header"] = json!(h);
     }
-    if sig.asyncness.is_some() && has_await(block) {
-        out["error"] = json!("UNSUPPORTED async fn with .await cannot be extracted (N10)");
-        return;
-    }
     let mut b = block.clone();
     if rename_self {
         struct R;
@@ -520,6 +516,10 @@ fn emit_fn(out: &mut Value, req: &Value, sig: &Signature, block: &Block, impl_hd
             match norm::slice_block(&b, sl) {
                 Ok(nb) => {
                     b = nb;
+                    if let Some(tail) = sl["tail"].as_str() {
+                        let te: Expr = syn::parse_str(tail).expect("slice_tail");
+                        b.stmts.push(Stmt::Expr(te, None));
+                    }
                     n.log("N11-slice", sig.ident.span());
                 }
                 Err(e) => {
@@ -528,6 +528,10 @@ fn emit_fn(out: &mut Value, req: &Value, sig: &Signature, block: &Block, impl_hd
                 }
             }
         }
+    }
+    if sig.asyncness.is_some() && has_await(&b) {
+        out["error"] = json!("UNSUPPORTED async fn with .await cannot be extracted (N10); slice an await-free part instead");
+        return;
     }
     // N16: item declarations inside the body (local enums/structs) are hoisted in front of the fn
     let mut hoisted: Vec<Item> = vec![];
